@@ -9,6 +9,7 @@ void vf_witness(void);                 // reachability witness: must come back *
 void vf_obs(unsigned long long v);     // observation for the translator self-check (no-op under CBMC)
 void *vf_buf8(unsigned n); void *vf_buf16(unsigned n); void *vf_buf32(unsigned n); void *vf_buf64(unsigned n);
 void vf_free(void *p);
+void *vf_alloc(unsigned nbytes);          // exact-size uninitialised heap block
 }
 inline void *operator new(unsigned long, void *p) noexcept { return p; }
 template <typename T> inline T *vf_buf(unsigned n) {   // exact-size heap buffer, arbitrary contents
